@@ -46,7 +46,10 @@ class WindowManager:
         :rtype: ``None``
         """
         self.current_window_size -= size
-        if self.current_window_size < 0:
+        # A frame that consumes nothing cannot overrun the window, even when
+        # a SETTINGS_INITIAL_WINDOW_SIZE change has made the window negative
+        # (RFC 7540 Sections 6.9.1 and 6.9.2).
+        if size > 0 and self.current_window_size < 0:
             raise FlowControlError("Flow control window shrunk below 0")
 
     def window_opened(self, size):
